@@ -42,7 +42,12 @@ def vec(v, ctype=float):
 
 def build(o, ctype=float, form=0):
     """construct the library object for an exact descriptor through the public constructors.
-    form selects among equivalent constructor forms where they exist."""
+    form selects among equivalent constructor forms / argument orders where they exist:
+      Line: 0 (Point, Vector) 1 (Point, Point) 2 (Vector, Vector)
+      HalfLine: 0 (Point, Vector) 1 (Point, Point);  Segment: 0 (Point, Point) 1 (Point, Vector)
+      Plane: 0 (Point, normal) 1 three points 2 (Point, Vector, Vector) 3 general form
+      ConvexPolygon: vertex list rotated by form;  ConvexPolyhedron: face list rotated by form, odd
+      forms additionally hand every second face over negated"""
     G = lib()
     if o is None:
         return None
@@ -50,27 +55,58 @@ def build(o, ctype=float, form=0):
     if k == "P":
         return pt(o[1], ctype)
     if k == "L":
-        if form == 1:
+        if form % 3 == 1:
             return G.Line(pt(o[1], ctype), pt(X.add(o[1], o[2]), ctype))
+        if form % 3 == 2:
+            return G.Line(vec(o[1], ctype), vec(o[2], ctype))
         return G.Line(pt(o[1], ctype), vec(o[2], ctype))
     if k == "H":
-        if form == 1:
+        if form % 2 == 1:
             return G.HalfLine(pt(o[1], ctype), pt(X.add(o[1], o[2]), ctype))
         return G.HalfLine(pt(o[1], ctype), vec(o[2], ctype))
     if k == "S":
-        if form == 1:
+        if form % 2 == 1:
             return G.Segment(pt(o[1], ctype), vec(X.sub(o[2], o[1]), ctype))
         return G.Segment(pt(o[1], ctype), pt(o[2], ctype))
     if k == "PL":
+        f = form % 4
+        if f in (1, 2):
+            u, v = X.perp2(o[2])
+            if f == 1:
+                return G.Plane(pt(o[1], ctype), pt(X.add(o[1], u), ctype), pt(X.add(o[1], v), ctype))
+            return G.Plane(pt(o[1], ctype), vec(u, ctype), vec(v, ctype))
+        if f == 3:
+            n = o[2]
+            d = X.dot(n, o[1])
+            return G.Plane(conv(n[0], ctype), conv(n[1], ctype), conv(n[2], ctype), conv(d, ctype))
         return G.Plane(pt(o[1], ctype), vec(o[2], ctype))
     if k == "G":
-        return G.ConvexPolygon(tuple(pt(p, ctype) for p in o[1]))
+        m = len(o[1])
+        r = form % m
+        pts = list(o[1][r:]) + list(o[1][:r])
+        return G.ConvexPolygon(tuple(pt(p, ctype) for p in pts))
     if k == "K":
         faces = []
-        for _n, _b, idx in o[2]:
-            faces.append(G.ConvexPolygon(tuple(pt(o[1][i], ctype) for i in idx)))
+        nf = len(o[2])
+        r = form % nf
+        order = list(range(r, nf)) + list(range(r))
+        for j, fi in enumerate(order):
+            idx = o[2][fi][2]
+            poly = G.ConvexPolygon(tuple(pt(o[1][i], ctype) for i in idx))
+            if form % 2 == 1 and j % 2 == 1:
+                poly = -poly
+            faces.append(poly)
         return G.ConvexPolyhedron(tuple(faces))
     raise ValueError(k)
+
+
+CT = {"f": float, "i": int}
+DEFAULT_VAR = ("f", 0, "f", 0)
+
+
+def build_var(a, b, var):
+    """build an operand pair under a variant (ctype_a, form_a, ctype_b, form_b)"""
+    return build(a, CT[var[0]], var[1]), build(b, CT[var[2]], var[3])
 
 
 def _xyz(p):
